@@ -31,7 +31,7 @@ func (b *buffer) currentTag() Tag {
 
 // nextTag returns the next tag in tagBuffer
 func (b *buffer) nextTag() Tag {
-	if b.pos+1 < tagMaxCount {
+	if b.pos+1 < b.len {
 		return b.tag[b.pos+1]
 	}
 	return Tag{}
